@@ -22,7 +22,7 @@ const (
 
 type c17Target struct {
 	Name     string `json:"name"`
-	FirstOK  int    `json:"first_ok"` // index of the first successful probe, -1 never
+	FirstOK  int    `json:"first_ok"`  // index of the first successful probe, -1 never
 	FailKind string `json:"fail_kind"` // refuse | 500 | hang
 }
 
